@@ -322,7 +322,13 @@ TEXT = {
           "blocks over the product fused claim x proof-of-work x account state through ApplyBlock on a real node; the base cost "
           "itself over block type x destination (ordinary, zero, own, unknown address, embedded) x data length (0 .. 16 KiB+1) "
           "against basePlasmaChecked (base_cost_checked: the destination of a plain send plays no role) and by hand-built sends "
-          "one plasma unit below / at that cost.",
+          "one plasma unit below / at that cost; the cost of the called contract method by a reviewed table of method kinds "
+          "(simple / withdraw / double withdraw / ...) proved equal to the regenerated GetPlasma of every method under all 8 "
+          "spork regimes with total coverage of the method names (method_costs_every_method_reviewed, method_costs_as_reviewed), "
+          "used by the harness to price every embedded call, tied to behaviour by a descendant-count monitor and by calls of "
+          "every method carrying cost-1 / cost; plasma only from fused QSR by a storage-free replay of the plasma contract's "
+          "chain (Fuse calls with every token x amounts around the minimum) compared at every momentum with the fused amounts "
+          "the node records and fed to enoughPlasma.",
   "design_ref": "§3 C12",
   "note": "SHA3 is a parameter; the model is hand-written and tied by correspondence (boundary + random inputs); "
           "the facts enoughPlasma rests on (fused QSR, committed / uncommitted chain plasma, base cost) are read from the "
